@@ -155,6 +155,72 @@ fn u02_5_header_layout_v2() {
     header_layout(true);
 }
 
+// ------------------------------------------------------------------------------------ U02.6 header layout (V3 / V4)
+// The published extended header: the 44 bytes of V2, then the 64-bit archive size at +0x2C, the BET table position at
+// +0x34 and the HET table position at +0x3C (68 bytes); V4 adds five 64-bit compressed table sizes (hash, block, hi-block,
+// HET, BET) at +0x44, the raw chunk size at +0x6C and six MD5 digests (block, hash, hi-block, BET, HET, header) at +0x70.
+fn header_layout_v34(v4: bool) {
+    let shift: u16 = kani::any();
+    kani::assume(shift <= 15);
+    let b = ArchiveBuilder::new().version(if v4 { FormatVersion::V4 } else { FormatVersion::V3 }).block_size(shift);
+    let v4d = crate::header::MpqHeaderV4Data { hash_table_size_64: kani::any(), block_table_size_64: kani::any(), hi_block_table_size_64: kani::any(),
+        het_table_size_64: kani::any(), bet_table_size_64: kani::any(), raw_chunk_size: kani::any(), md5_block_table: kani::any(), md5_hash_table: kani::any(),
+        md5_hi_block_table: kani::any(), md5_bet_table: kani::any(), md5_het_table: kani::any(), md5_mpq_header: kani::any() };
+    let v4c = v4d.clone();
+    let p = HeaderWriteParams { archive_size: kani::any(), hash_table_pos: kani::any(), block_table_pos: kani::any(), hash_table_size: kani::any(),
+        block_table_size: kani::any(), hi_block_table_pos: if kani::any() { Some(kani::any()) } else { None },
+        het_table_pos: if kani::any() { Some(kani::any()) } else { None }, bet_table_pos: if kani::any() { Some(kani::any()) } else { None },
+        _het_table_size: None, _bet_table_size: None, v4_data: if v4 { Some(v4d) } else { None } };
+    let mut buf = [0xAAu8; 212];
+    let n = {
+        let mut c = std::io::Cursor::new(&mut buf[..]);
+        match b.write_header(&mut c, &p) { Ok(()) => {}, Err(e) => { core::mem::forget(e); assert!(false, "header write succeeds"); } }
+        c.position() as usize
+    };
+    let want = if v4 { 208 } else { 68 };
+    assert!(n == want, "header has the size of its version");
+    let w32 = |o: usize| u32::from_le_bytes([buf[o], buf[o + 1], buf[o + 2], buf[o + 3]]);
+    let w16 = |o: usize| u16::from_le_bytes([buf[o], buf[o + 1]]);
+    let w64 = |o: usize| u64::from(w32(o)) | (u64::from(w32(o + 4)) << 32);
+    assert!(buf[0] == b'M' && buf[1] == b'P' && buf[2] == b'Q' && buf[3] == 0x1A, "signature");
+    assert!(w32(4) == want as u32, "header size field");
+    assert!(w16(12) == (if v4 { 3 } else { 2 }) && w16(14) == shift, "format version and sector shift");
+    assert!(w32(16) == p.hash_table_pos as u32 && w32(20) == p.block_table_pos as u32, "low parts of the table positions");
+    assert!(w32(24) == p.hash_table_size && w32(28) == p.block_table_size, "table sizes");
+    assert!(w64(32) == p.hi_block_table_pos.unwrap_or(0), "hi-block table position (0 when there is none)");
+    assert!(w16(40) == (p.hash_table_pos >> 32) as u16 && w16(42) == (p.block_table_pos >> 32) as u16, "high 16 bits of the table positions");
+    assert!(w64(0x2C) == p.archive_size, "64-bit archive size at +0x2C");
+    assert!(w64(0x34) == p.bet_table_pos.unwrap_or(0), "BET table position at +0x34 (0 when there is none)");
+    assert!(w64(0x3C) == p.het_table_pos.unwrap_or(0), "HET table position at +0x3C (0 when there is none)");
+    if v4 {
+        assert!(w64(0x44) == v4c.hash_table_size_64 && w64(0x4C) == v4c.block_table_size_64 && w64(0x54) == v4c.hi_block_table_size_64, "compressed sizes of hash, block, hi-block table");
+        assert!(w64(0x5C) == v4c.het_table_size_64 && w64(0x64) == v4c.bet_table_size_64, "compressed sizes of HET, BET table");
+        assert!(w32(0x6C) == v4c.raw_chunk_size, "raw chunk size at +0x6C");
+        let j: usize = kani::any();
+        kani::assume(j < 16);
+        assert!(buf[0x70 + j] == v4c.md5_block_table[j] && buf[0x80 + j] == v4c.md5_hash_table[j] && buf[0x90 + j] == v4c.md5_hi_block_table[j], "digests of block, hash, hi-block table");
+        assert!(buf[0xA0 + j] == v4c.md5_bet_table[j] && buf[0xB0 + j] == v4c.md5_het_table[j] && buf[0xC0 + j] == v4c.md5_mpq_header[j], "digests of BET, HET table and header");
+    }
+    assert!(buf[want] == 0xAA, "nothing beyond the header");
+    core::mem::forget(b);
+}
+
+// @harness unit=U02.6 props=C02,C01 kind=complete timeout=600 target="builder.rs: write_header, format V3 (every parameter value)" oracle=mpq_interop
+#[kani::proof]
+#[kani::unwind(18)]
+#[kani::stub(alloc::fmt::format, stub_format)]
+fn u02_6_header_layout_v3() {
+    header_layout_v34(false);
+}
+
+// @harness unit=U02.6 props=C02,C01 kind=complete timeout=900 target="builder.rs: write_header, format V4 (every parameter value)" oracle=mpq_interop
+#[kani::proof]
+#[kani::unwind(18)]
+#[kani::stub(alloc::fmt::format, stub_format)]
+fn u02_6_header_layout_v4() {
+    header_layout_v34(true);
+}
+
 // ------------------------------------------------------------------------------------ U01.5 write_file: the stored form of one file
 // Whole function, real code.  `compress` is replaced by a deterministic instance of its (Verus-proved, U03.codecs)
 // contract: the result is the input itself or the method byte followed by strictly fewer bytes than the input.  The
